@@ -215,10 +215,20 @@ func runEngineLint(p *Prog, o *obls) {
 				}
 				// a sum of two run-time quantities of this width (start + length) can pass the top of the range; x+const is
 				// left alone: it is the shape of every counted loop (`i+1 < n`), where x < n is known
-				if _, c1 := p.origin(sum.X).(*ssa.Const); c1 {
+				// … unless x is the variable of a walk that ends on equality (`for i := a; i != end; i++`): such a loop
+				// runs through the top of the range by design, x is not bounded by anything, and x+c wraps on the way
+				walker := func(v ssa.Value) bool {
+					phi, ok := p.origin(v).(*ssa.Phi)
+					if !ok {
+						return false
+					}
+					c, ok := ifCond(phi.Block()).(*ssa.BinOp)
+					return ok && (c.Op == token.NEQ || c.Op == token.EQL) && (p.origin(c.X) == ssa.Value(phi) || p.origin(c.Y) == ssa.Value(phi))
+				}
+				if _, c1 := p.origin(sum.X).(*ssa.Const); c1 && !walker(sum.Y) {
 					continue
 				}
-				if _, c2 := p.origin(sum.Y).(*ssa.Const); c2 {
+				if _, c2 := p.origin(sum.Y).(*ssa.Const); c2 && !walker(sum.X) {
 					continue
 				}
 				bits := intBits(bt)
